@@ -155,10 +155,12 @@ func c12Exec(cs fw.Case) *fw.Fail {
 		return "race-free", ""
 	}
 	total := 0
+	var steps int64
 	for b := 0; b <= c.Bound; b++ {
 		x := &vsched.Explorer{Bound: b, Delay: c.Delay, Opt: vsched.Options{Races: true}, Body: body, Check: check, Stop: func() bool { fw.Heartbeat(); return fw.Cur != nil && fw.Cur.Expired() }, MaxExec: maxExecPerCase()}
 		x.Explore()
 		total = x.Executions
+		steps = x.Steps + int64(x.Executions)
 		if x.Infra != "" {
 			return fw.Failf("deterministic replay under the scheduler", "INFRA %s (schedule %v)", x.Infra, x.FailTrace)
 		}
@@ -175,7 +177,7 @@ func c12Exec(cs fw.Case) *fw.Fail {
 	}
 	fw.Tally("schedules", int64(total))
 	fw.Tally("states", int64(total))
-	fw.Tally("transitions", int64(total))
+	fw.Tally("transitions", steps)
 	fw.Tally("traces_validated", int64(total))
 	fw.Tally("race_events", int64(events))
 	fw.TallyOutcome("race-free:" + c.Scenario)
